@@ -40,12 +40,41 @@ type c02Case struct {
 	msg      *message.Message
 	produced map[int]*message.Message
 	inPre    bool
+	grp      *c02Group
 }
+
+// c02LogEntry is one entry of the ONE totally ordered log of a handler's run loop: the loop's
+// receive ("recv", stamped by the hook right after the channel receive), every handleMessage /
+// publisher event of a message ("ev"), the end of a handleMessage goroutine ("done", stamped by
+// the deferred hook just before runningHandlersWg.Done()), the end of the loop ("close").
+type c02LogEntry struct {
+	K  string        `json:"k"`
+	ID string        `json:"id,omitempty"`
+	Ev []interface{} `json:"ev,omitempty"`
+}
+
+type c02GroupOut struct {
+	PubKind int           `json:"pubkind"`
+	Mws     []int         `json:"mws"`
+	IDs     []string      `json:"ids"`
+	Log     []c02LogEntry `json:"log"`
+}
+
+var c02GlobalKinds = map[string]bool{"call": true, "pre": true, "publish": true, "pubret": true, "pubpanic": true, "settle": true}
 
 func (c *c02Case) rec(ev ...interface{}) {
 	c.mu.Lock()
 	c.Trace = append(c.Trace, ev)
+	if k, ok := ev[0].(string); ok && c.grp != nil && c02GlobalKinds[k] {
+		c.grp.glog("ev", c.ID, ev)
+	}
 	c.mu.Unlock()
+}
+
+func (g *c02Group) glog(k, id string, ev []interface{}) {
+	g.logMu.Lock()
+	g.log = append(g.log, c02LogEntry{K: k, ID: id, Ev: ev})
+	g.logMu.Unlock()
 }
 
 func sameContent(a, b *message.Message) bool {
@@ -68,6 +97,8 @@ type c02Group struct {
 	want    int
 	release chan struct{}
 	topic   string // the publish topic the handler was added with
+	logMu   sync.Mutex
+	log     []c02LogEntry
 }
 
 func (g *c02Group) lookup(uuid string) *c02Case {
@@ -243,19 +274,39 @@ func (l *c02LoopPubSub) Close() error                                       { l.
 
 var c02Abort bool // set once a group saw messages that are never settled: later groups are not run
 
-func c02RunGroup(rt *hookrt.Runtime, pubKind int, mws []int, cases []*c02Case) error {
+func c02RunGroup(rt *hookrt.Runtime, pubKind int, mws []int, cases []*c02Case) (*c02GroupOut, error) {
 	g := &c02Group{cases: map[string]*c02Case{}, topic: "out"}
 	if pubKind == 3 {
 		g.topic = "in"
 	}
 	for _, c := range cases {
 		g.cases[c.ID] = c
+		c.grp = g
 		c.produced = map[int]*message.Message{}
 	}
 	rt.Reset()
 	rt.Perturb("router.handle.before_publish", 0.5)
 	rt.Perturb("router.handle.before_settle", 0.5)
 	rt.Filter(func(point string, keys []string) bool {
+		switch point {
+		case "router.handler.received":
+			if len(keys) > 1 {
+				if c := g.lookup(keys[1]); c != nil {
+					g.glog("recv", c.ID, nil)
+				}
+			}
+			return false
+		case "router.handler.msg.done":
+			if len(keys) > 1 {
+				if c := g.lookup(keys[1]); c != nil {
+					g.glog("done", c.ID, nil)
+				}
+			}
+			return false
+		case "router.handler.loop_ended":
+			g.glog("close", "", nil)
+			return false
+		}
 		ack := point == "message.ack.locked"
 		if !ack && point != "message.nack.locked" {
 			return strings.HasPrefix(point, "router.handle.")
@@ -275,7 +326,7 @@ func c02RunGroup(rt *hookrt.Runtime, pubKind int, mws []int, cases []*c02Case) e
 	})
 	router, err := message.NewRouter(message.RouterConfig{CloseTimeout: 5 * time.Second}, watermill.NopLogger{})
 	if err != nil {
-		return err
+		return nil, err
 	}
 	sub := script.NewSubscriber(true)
 	pub := &script.Publisher{OnPublish: g.onPublish}
@@ -308,7 +359,7 @@ func c02RunGroup(rt *hookrt.Runtime, pubKind int, mws []int, cases []*c02Case) e
 	select {
 	case <-router.Running():
 	case <-time.After(5 * time.Second):
-		return errors.New("router did not start")
+		return nil, errors.New("router did not start")
 	}
 	// batches of 1, 2, 4, 8 messages in flight
 	sizes := []int{1, 2, 4, 8, 3}
@@ -385,14 +436,21 @@ func c02RunGroup(rt *hookrt.Runtime, pubKind int, mws []int, cases []*c02Case) e
 		wg.Wait()
 	}
 	if err := router.Close(); err != nil {
-		return fmt.Errorf("router close: %w", err)
+		return nil, fmt.Errorf("router close: %w", err)
 	}
 	select {
 	case <-runErr:
 	case <-time.After(5 * time.Second):
-		return errors.New("Run did not return after Close")
+		return nil, errors.New("Run did not return after Close")
 	}
-	return nil
+	out := &c02GroupOut{PubKind: pubKind, Mws: mws}
+	for _, c := range cases {
+		out.IDs = append(out.IDs, c.ID)
+	}
+	g.logMu.Lock()
+	out.Log = append(out.Log, g.log...)
+	g.logMu.Unlock()
+	return out, nil
 }
 
 func cmdC02(args []string) error {
@@ -410,6 +468,7 @@ func cmdC02(args []string) error {
 		{2, nil},
 	}
 	var all []*c02Case
+	var groups []*c02GroupOut
 	n := 0
 	for pk := 0; pk < 4; pk++ {
 		for _, mws := range prefixes {
@@ -453,13 +512,22 @@ func cmdC02(args []string) error {
 					}
 				}
 			}
-			if err := c02RunGroup(rt, pk, mws, group); err != nil {
-				return err
+			// one Router handler (one run loop, one interleaved log) per 60 messages
+			for lo := 0; lo < len(group); lo += 60 {
+				hi := lo + 60
+				if hi > len(group) {
+					hi = len(group)
+				}
+				gout, err := c02RunGroup(rt, pk, mws, group[lo:hi])
+				if err != nil {
+					return err
+				}
+				groups = append(groups, gout)
 			}
 			all = append(all, group...)
 		}
 	}
-	return writeJSON(*out, all)
+	return writeJSON(*out, map[string]interface{}{"cases": all, "groups": groups})
 }
 
 func init() { register("c02", cmdC02) }
